@@ -925,9 +925,12 @@ def gen_api_program(rng, i):
         elif r < 0.78: ops.append("peerrfx,%d,%d,%d,%d" % (a, 1 - a, rng.choice([1, 1, 2]), rng.choice([1, 2])))
         elif r < 0.80: ops.append(rng.choice(["tos,%d,%d,46" % (a, sid()), "name,%d,%d,audio" % (a, sid()), "setcreds,%d,%d,abcd,abcdefghijklmnopqrstuvwx" % (a, sid())]))
         elif r < 0.82: ops.append("hole,10.0.%d.1,10.0.%d.1,%s" % (a, 1 - a, rng.choice(["on", "off"])))
+        elif r < 0.84: ops.append("sendfail,10.0.%d.1,%s" % (a, rng.choice(["on", "on", "off"])))      # sendto() towards that host fails (route gone, EPERM)
         else: ops.append("run,%d" % rng.choice([0, 1, 10, 25, 300, 5000, 31000]))
     # the end: idle measurement, then tear-down in a random order
-    ops += ["run,3000", "run,20000,idle"]
+    if rng.random() < 0.15:
+        ops.append("sendfail,10.0.%d.1,on" % rng.randrange(2))
+    ops += ["run,3000", "tracetimers,1", "run,20000,idle", "tracetimers,0"]
     tail = []
     for k in rng.sample([0, 1], 2):
         if rng.random() < 0.4:
@@ -963,6 +966,16 @@ def oracle_api_program(evs, meta, out):
                 return "the main loop was woken %d times in 20 s of idle virtual time (timers firing faster than their periods)" % sl
             if d > 1200 * (sl + 1):
                 return "%d dispatches for %d wake-ups in 20 s of idle virtual time (zero-interval timer loop)" % (d, sl)
+    # per timer: the timers whose configured period is seconds (keepalive Tr = 25 s / consent >= 4 s, TURN refresh, remote consent) may be armed with a
+    # short interval now and then (a pair due soon, a retransmission of a keepalive check) and, in this simulator, in zero-interval bursts within the
+    # last millisecond before their due time; armed with 1..999 ms more than 5 times a second over 20 idle seconds means the timer runs at Ta
+    short = {}
+    for e in evs:
+        if e.kind == "tmr" and e.f[0] in ("Connectivity_keepalive_timeout", "Pair_remote_consent", "Candidate_TURN_refresh") and 0 < int(e.f[1]) < 1000:
+            short[e.f[0]] = short.get(e.f[0], 0) + 1
+    for k, v in short.items():
+        if v > 100:
+            return "timer '%s' (period: seconds) was armed %d times with an interval below 1 s during 20 s without a packet or a call" % (k.replace("_", " "), v)
     return None
 
 
